@@ -19,6 +19,9 @@ pub struct P09 {
     pub max_sends: usize,
     pub sizes: Vec<Size>,
     pub all_pieces: bool,
+    /// the application also flushes at arbitrary moments, answers in `enqueue_responses` batches and
+    /// changes the payload limit while connections exist
+    pub app_extras: bool,
     /// polls seen since a generation became "closed and fully answered"
     due: HashMap<usize, usize>,
     trips: u64,
@@ -26,7 +29,7 @@ pub struct P09 {
 
 impl P09 {
     pub fn new(hostile: usize, max_sends: usize) -> Self {
-        P09 { hostile, max_sends, sizes: vec![Size::Small], all_pieces: false, due: HashMap::new(), trips: 0 }
+        P09 { hostile, max_sends, sizes: vec![Size::Small], all_pieces: false, app_extras: false, due: HashMap::new(), trips: 0 }
     }
 
     /// generations whose server side must be released: client fully closed, nothing owed
@@ -138,6 +141,13 @@ impl HistoryProp for P09 {
                     v.push(Act::Respond(i, *s));
                 }
             }
+        }
+        if self.app_extras {
+            v.push(Act::Flush);
+            if sim.outstanding.len() >= 2 {
+                v.push(Act::RespondBatch(2 + sim.step as u64 * 7919, self.sizes[sim.step % self.sizes.len()]));
+            }
+            v.push(Act::SetLimit(if sim.step % 2 == 0 { 4 } else { 51200 }));
         }
         v
     }
@@ -253,6 +263,8 @@ fn choose(rng: &mut Rng, sim: &Sim, en: &[Act]) -> Option<Act> {
             }
             Act::Respond(_, Size::Large) => 2,
             Act::Respond(_, _) => 4,
+            Act::Flush => 3,
+            Act::RespondBatch(_, _) => 3,
             _ => 1,
         })
         .collect();
@@ -479,6 +491,11 @@ pub fn run(ctx: &mut Ctx) {
     p.sizes = vec![Size::Small, Size::Medium, Size::Large];
     p.all_pieces = true;
     hist::random_histories(ctx, &mut p, n / 2 + 1, 15, 90, "C09", &mut choose);
+    let mut p = P09::new(3, 6);
+    p.sizes = vec![Size::Small, Size::Medium, Size::Large];
+    p.all_pieces = true;
+    p.app_extras = true;
+    hist::random_histories(ctx, &mut p, n / 2 + 1, 15, 90, "C09", &mut choose);
     vanishing_client_family(ctx, ctx.budget(1_600, 60_000) / ctx.nshards);
     capacity_churn_family(ctx, ctx.budget(3_200, 120_000) / ctx.nshards);
     if ctx.rep.samples.is_empty() {
@@ -489,6 +506,7 @@ pub fn run(ctx: &mut Ctx) {
 pub fn replay(ctx: &mut Ctx, case: &J) {
     let mut p = P09::new(11, 8);
     p.all_pieces = true;
+    p.app_extras = true;
     p.sizes = vec![Size::Small, Size::Large];
     hist::replay_history(ctx, &mut p, case, "C09");
 }
